@@ -8,6 +8,8 @@ package sarama
 
 import (
 	"runtime"
+	"runtime/debug"
+	"strings"
 	"sync"
 	"sync/atomic"
 	"time"
@@ -109,3 +111,15 @@ func (b *vfHookBlock) release() {
 }
 
 func (st *vfHookState) hits() int64 { return atomic.LoadInt64(&st.total) }
+
+// vfShortStack returns the frames of the current (panicking) goroutine, trimmed.
+func vfShortStack() string {
+	st := string(debug.Stack())
+	if i := strings.Index(st, "panic("); i >= 0 {
+		st = st[i:]
+	}
+	if len(st) > 2500 {
+		st = st[:2500]
+	}
+	return st
+}
